@@ -1287,9 +1287,9 @@ var vtACSNames = map[byte]rune{
 func (t *tScreen) buildAcsMap() {
 	acsstr := t.ti.AltChars
 	t.acs = make(map[rune]string)
-	for len(acsstr) > 2 {
+	for len(acsstr) >= 2 {
 		srcv := acsstr[0]
-		dstv := string(acsstr[1])
+		dstv := acsstr[1:2]
 		if r, ok := vtACSNames[srcv]; ok {
 			t.acs[r] = t.ti.EnterAcs + dstv + t.ti.ExitAcs
 		}
